@@ -47,7 +47,8 @@ REACH = [
 
 
 def table_digest(t):
-    return (t.serialize(), tuple(t.size), repr(t.get_values()), tuple(t._tmap), tuple(t._cmap))
+    # the position maps are part of the observable state when the implementation has them
+    return (t.serialize(), tuple(t.size), repr(t.get_values()), tuple(getattr(t, "_tmap", ())), tuple(getattr(t, "_cmap", ())))
 
 
 def shared_caches(a, b):
@@ -107,9 +108,9 @@ def table_twins(ctx, res, c):
         r2 = r.clone
         res.judge()
         res.cls(("Row", "in-repeated-run" if (r.repeated or 1) > 1 else "plain", "birth"), True)
-        if r2.serialize() != r.serialize() or r2.get_values() != r.get_values() or r2._rmap != r._rmap:
+        if r2.serialize() != r.serialize() or r2.get_values() != r.get_values() or getattr(r2, "_rmap", None) != getattr(r, "_rmap", None):
             res.violation("row:clone-differs-at-birth", {"y": y}, witness)
-        elif r2._rmap is r._rmap or r2._indexes is r._indexes:
+        elif (getattr(r, "_rmap", None) is not None and getattr(r2, "_rmap", None) is r._rmap) or (getattr(r, "_indexes", None) is not None and getattr(r2, "_indexes", None) is r._indexes):
             res.violation("row:clone-shares-cache-object", {"y": y}, witness)
         else:
             d0 = table_digest(a)
